@@ -370,7 +370,7 @@ func (p c10) abandoned(c *core.Ctx) {
 		fail("the handler was not invoked")
 		return
 	}
-	if err := rr.DR.RestoreAt(snap); err != nil {
+	if err := rr.RestoreAt(snap); err != nil {
 		fail("RestoreAt failed: " + err.Error())
 		return
 	}
